@@ -34,6 +34,7 @@ def run(ctx):
     read1(ctx)
     seqbase(ctx)
     partialmax(ctx)
+    gapsphase(ctx)
     publishes_all(ctx)
     contains(ctx)
 
@@ -491,3 +492,45 @@ def contains(ctx):
               fail_msg="contains_version truth table is %s; expected held iff (max >= v and v not needed): a version equal to the head or inside a gap would be misreported" % {k: sorted(map(str, v)) for k, v in res.items()})
     fl = cm.deep_names(b, op_place(a.args[0]), (a.bb, "T"))[0]
     R.require("needed" in fl, "any-over-needed", a.where(), "the membership test ranges over self.needed")
+
+
+def gapsphase(ctx):
+    """compute_gaps_change gathers into `insert_set` whole stored gap ranges (those overlapping or adjoining each applied range)
+    and then strikes the applied versions out of it.  The strike must come after *all* gathering: a stored range gathered for a
+    later applied range would put an already struck version back, leaving a held version in `needed` (memory and gap table)."""
+    F = ctx.F
+    R = ctx.rule("C02.gapsphase", "K2", "compute_gaps_change strikes the applied versions from insert_set only after all gap ranges have been gathered (no insert after a remove)")
+    b = F.get(VS + "::compute_gaps_change")
+    if not R.anchor(b, "compute_gaps_change", "fn VersionsSnapshot::compute_gaps_change"):
+        return
+
+    ins = [c for c in b.calls if re.search(r"RangeInclusiveSet::<T.*>::insert$", c.f) and _recv_field(b, c) == "insert_set"]
+    rem = [c for c in b.calls if re.search(r"RangeInclusiveSet::<T.*>::remove$", c.f) and _recv_field(b, c) == "insert_set"]
+    if not (R.floor(len(ins), 3, "gathers", "insert_set.insert sites") and R.floor(len(rem), 1, "strikes", "insert_set.remove sites")):
+        return
+    bad = [(r, i) for r in rem for i in ins if b.can_reach(r.bb, i.bb)]
+    R.require(not bad, "strike-after-gather", rem[0].where(), "no insert_set.insert is reachable from an insert_set.remove (%d gathers, %d strikes)" % (len(ins), len(rem)),
+              fail_msg="insert_set.insert at %s can run after insert_set.remove at %s: a stored gap range gathered for a later applied range re-adds versions already struck, "
+                       "so a version applied in the same batch stays in `needed` (e.g. stored gap 1..=29, batch {12, 15}: 12 stays needed)"
+                       % (bad[0][1].where() if bad else "", bad[0][0].where() if bad else ""))
+
+
+def _recv_field(b, c):
+    """name of the field the receiver of a method call is borrowed from (`&mut changes.insert_set` -> insert_set)"""
+    p = op_place(c.args[0]) if c.args else None
+    seen = set()
+    while p is not None and p[0] not in seen:
+        seen.add(p[0])
+        for x in reversed(p[1:]):
+            if isinstance(x, list) and x[0] == "f" and x[2]:
+                return x[2]
+        nxt = None
+        for d in b.defs.get(p[0], []):
+            if d[2] == "assign":
+                rv = d[3][1]
+                if rv[0] == "ref":
+                    nxt = rv[2]
+                elif rv[0] == "use" and op_place(rv[1]) is not None:
+                    nxt = op_place(rv[1])
+        p = nxt
+    return None
